@@ -11,7 +11,8 @@
 //!
 //! An idle worker (one whose receive failed and that would sleep) is modelled
 //! as blocked until some push or successful steal has *completed* since the
-//! beginning of its last failed receive. "No enabled worker, not all exited"
+//! beginning of its last failed receive (unless that receive was answered with
+//! an injected `Steal::Retry`: then polling again may succeed by itself). "No enabled worker, not all exited"
 //! is a deadlock; on deadlock, horizon overrun or replay divergence all
 //! parked workers panic out of their hook so that the walk unwinds.
 #![allow(missing_docs)]
@@ -147,6 +148,9 @@ struct State {
     epoch: u64,
     pending: Vec<bool>,
     recv_epoch: Vec<u64>,
+    /// Whether an injected `Retry` answered a steal attempt of the worker's
+    /// current receive (then polling again may succeed without a new push).
+    had_retry: Vec<bool>,
     pos: usize,
     nsteps: usize,
     trace: Trace,
@@ -230,6 +234,7 @@ impl State {
             epoch: 0,
             pending: vec![],
             recv_epoch: vec![],
+            had_retry: vec![],
             pos: 0,
             nsteps: 0,
             trace: Trace::default(),
@@ -377,6 +382,7 @@ pub(crate) fn init(threads: usize) {
         st.status = vec![Status::NotStarted; threads];
         st.pending = vec![false; threads];
         st.recv_epoch = vec![0; threads];
+        st.had_retry = vec![false; threads];
         st.running = None;
         st.trace.workers = threads;
     }
@@ -454,10 +460,15 @@ pub(crate) fn point(p: Point) -> bool {
     let mut ret = false;
     let mut retry = false;
     match p {
-        Point::Pop => st.recv_epoch[w] = st.epoch,
+        Point::Pop => {
+            st.recv_epoch[w] = st.epoch;
+            st.had_retry[w] = false;
+        }
         Point::Push => st.pending[w] = true,
         Point::Idle => {
-            st.status[w] = Status::Waiting(st.recv_epoch[w]);
+            if !st.had_retry[w] {
+                st.status[w] = Status::Waiting(st.recv_epoch[w]);
+            }
             ret = true;
         }
         Point::Exit => st.status[w] = Status::Exited,
@@ -467,6 +478,7 @@ pub(crate) fn point(p: Point) -> bool {
             if st.cfg.retry_at.contains(&k) {
                 retry = true;
                 ret = true;
+                st.had_retry[w] = true;
             }
         }
         _ => {}
